@@ -33,6 +33,8 @@ Sub-spaces
               those types, incl. magnitudes at the edge of the narrow types (2.5e30, 1e-30 in float32; 6e4, 6e-5 in
               float16): all ordered pairs inside 4 small groups (ym, mm, m, Tm, Ym | J, eV, MeV | g, [M_sol] | %, ppth)
               and s <-> kHz; the result must be the double-precision x*f(u)/f(v) of the value the input holds
+  uncertainty with an uncertainty attached (abse=0.5 or rele=2) the converted VALUE is the same as without: every
+              reciprocal pair and all pairs of the 4 small dtype groups, x in {2.5, 50}, value(v) and to(v)
   table       schema validation of the tables (see units_ref.SCHEMA); malformed rows are reported, not adopted
 
 Not demanded (left out): logarithmic and offset units (C05); numeric factors inside a target expression; x = 0 under
@@ -470,6 +472,29 @@ def check_dtype(case):
     return None
 
 
+UNC_XS = [2.5, 50.0]
+UNC_KW = [dict(abse=0.5), dict(rele=2)]
+
+
+def check_uncertainty(case):
+    """Quantity(x, u, abse=.. | rele=..): value(v) and to(v).value() are x*f(u)/f(v) (or the reciprocal rule) exactly as
+    without an uncertainty; only the VALUE is compared here (uncertainties themselves: C08)"""
+    Quantity = _lib()
+    u, v, x, kw, rec = case["u"], case["v"], case["x"], case["kw"], case.get("reciprocal", False)
+    e, ext = _expected(x, u, v, rec)
+    tags = ["with-uncertainty:" + "+".join(sorted(kw))] + \
+        (["reciprocal-dimension"] if rec else ["same-dimension"]) + _utags(u, v)
+    for how, fn in (("value", lambda: Quantity(x, u["text"], **kw).value(v["text"])),
+                    ("to", lambda: Quantity(x, u["text"], **kw).to(v["text"]).value())):
+        o = outcome(fn)
+        if o[0] == "err":
+            return failure("uncertainty", case, e, dict(error=o[1], message=o[2]), tags=tags,
+                           behaviour=how + ":raises:" + o[1])
+        if not _agree(o[1], e, ext):
+            return failure("uncertainty", case, e, _num(o[1]), tags=tags, behaviour=how + ":wrong-value")
+    return None
+
+
 def check_triple(case, direct=None):
     """Quantity(x,u).to(w).value(v) for every v of the group, against the direct conversion and the reference.
 
@@ -722,9 +747,11 @@ def plan(tier, seed):
     for k in range(8):
         shards.append(("power", k, 8))
     shards.append(("nounit",))
+    for k in range(8):
+        shards.append(("uncertainty", k, 8))
     for gi in range(len(DTYPE_GROUPS) + 1):
         shards.append(("dtype", gi))
-    order = {"table": 0, "dtype": 0, "nounit": 0, "refuse": 0, "number-to-rad": 0, "gbu": 0, "power": 0, "reciprocal": 1, "pair": 2, "compound": 3,
+    order = {"table": 0, "dtype": 0, "nounit": 0, "uncertainty": 0, "refuse": 0, "number-to-rad": 0, "gbu": 0, "power": 0, "reciprocal": 1, "pair": 2, "compound": 3,
              "triple": 4}
     shards.sort(key=lambda s: order[s[0]])
     return shards
@@ -836,6 +863,23 @@ def run_shard(desc):
                             sh.fail(bad)
             if n == 2 and desc[1] == 0:
                 sh.sample(dict(sub="power", u=u["text"], v=v["text"], xs=XS), limit=1)
+    elif kind == "uncertainty":
+        pairs = [(a, b, True) for a, b in _reciprocal_pairs()]
+        pairs += [(U(a), U(b), False) for g in DTYPE_GROUPS for a in g for b in g]
+        for n, (a, b, rec) in enumerate(pairs[desc[1]::desc[2]]):
+            bad = None
+            for x in UNC_XS:
+                for kw in UNC_KW:
+                    r = check_uncertainty(dict(sub="uncertainty", u=a, v=b, x=x, kw=kw, reciprocal=rec))
+                    sh.evaluations += 1
+                    if r is not None and bad is None:
+                        bad = r
+            sh.nontrivial += 1
+            sh.count("uncertainty:reciprocal" if rec else "uncertainty:linear")
+            if bad is not None:
+                sh.fail(bad)
+            if n == 1 and desc[1] == 0:
+                sh.sample(dict(sub="uncertainty", u=a["text"], v=b["text"], xs=UNC_XS, kw=UNC_KW), limit=1)
     elif kind == "nounit":
         zero = tuple([F(0)] * 8)
         for name in dict(_GROUPS).get(zero, []):
@@ -936,6 +980,8 @@ def replay(rec):
         r = check_number_to_rad(c)
     elif sub == "nounit":
         r = check_nounit(c)
+    elif sub == "uncertainty":
+        r = check_uncertainty(c)
     elif sub == "dtype":
         r = check_dtype(c)
     elif sub == "refuse":
@@ -958,7 +1004,7 @@ def finish(total, tier, seed):
             "reciprocal:converted": 1000, "refuse": 1000, "refuse:differs-only-in-rad": 4, "refuse:bare-number": 20,
             "number-to-rad": 8, "power:converted": 500, "refuse:unit-power": 500,
             "refuse:no-unit-target": 50, "nounit:converted": 4, "dtype:float32": 50, "dtype:float16": 50,
-            "dtype:int64": 50, "dtype:list": 40}
+            "dtype:int64": 50, "dtype:list": 40, "uncertainty:reciprocal": 1000, "uncertainty:linear": 40}
     for k, n in need.items():
         if h.get(k, 0) < n:
             raise HarnessError("vacuous sub-space %s: %r" % (k, h))
